@@ -331,8 +331,11 @@ def run_check(chk, tier, seed, replay=None, max_report=5):
     mobs = [None] * len(cases)
     if chk.entry:
         try:
-            res = lib.run_model([chk.entry_of(c) for c in cases], [chk.model_arg(c) for c in cases])
-            mobs = [chk.model_obs(c, r) for c, r in zip(cases, res)]
+            # cases outside the model's input language (comparable() false) are judged by the oracle only: no model run for them
+            midx = [i for i, c in enumerate(cases) if chk.comparable(c)]
+            res = lib.run_model([chk.entry_of(cases[i]) for i in midx], [chk.model_arg(cases[i]) for i in midx])
+            for i, r in zip(midx, res):
+                mobs[i] = chk.model_obs(cases[i], r)
         except Exception as e:
             model_error = "%s: %s" % (type(e).__name__, str(e)[:400])
 
@@ -367,7 +370,8 @@ def run_check(chk, tier, seed, replay=None, max_report=5):
     kernel_problem = None
     if chk.entry and model_error is None and cases:
         k = 200 if tier == "thorough" else 12
-        idx = sorted(rng.sample(range(len(cases)), min(k, len(cases))))
+        pool = [i for i in range(len(cases)) if mobs[i] is not None]
+        idx = sorted(rng.sample(pool, min(k, len(pool))))
         try:
             kres = lib.run_model_in_coq([chk.entry_of(cases[i]) for i in idx], [chk.model_arg(cases[i]) for i in idx], pid)
             for i, r in zip(idx, kres):
